@@ -48,6 +48,8 @@ for line in sys.stdin:
         ok = (f[3] == "full") if exp == 0 else (f[3] != "full" and le(f[3]) == exp)
     elif op == "divfloor":
         ok = le(f[3]) == le(f[1]) // le(f[2])
+    elif op == "mul":
+        ok = le(f[3]) == le(f[1]) * le(f[2]) and len(f[3]) == len(f[1]) + len(f[2])
     elif op == "fibrestart":
         w, k, r = int(f[1]), le(f[2]), le(f[3])
         exp = -((-(k << (8 * w))) // r)
